@@ -264,4 +264,52 @@ private def cexBigBytes : List Op := [.memoize 1 1 none 10 (some 999999) 40 fals
 example : (runFs (FsBackend.init false (some 100) false) cexBigBytes).2 = [.unit, .val (some (some 0))] ∧
     (runSpec Spec.empty cexBigBytes).2 = [.unit, .val (some (some 999999))] := by decide
 
+/-! ### metadata stored with the data (known finding K6, fix F30)
+
+`write_metadata(call, key, value, store_with_content_key = ck)` files the value next to the *data object* `ck` (file name: the
+object's name, `.meta.`, the key) and a marker in the call's own metadata; `read_metadata` follows the marker to the object of the
+call's current memento. The small model below keeps exactly that: a table keyed by (data object, key). `objOf` says which data
+object each call's result lives in — results that serialize to the same bytes share one (C07). -/
+
+abbrev Call := Nat
+abbrev Obj := Nat
+abbrev WdKey := Nat
+abbrev WithData := List ((Obj × WdKey) × Nat)
+
+def wdWrite (objOf : Call → Obj) (t : WithData) (c : Call) (k : WdKey) (v : Nat) : WithData :=
+  ((objOf c, k), v) :: t.filter (fun e => !(e.1 == (objOf c, k)))
+
+def wdRead (objOf : Call → Obj) (t : WithData) (c : Call) (k : WdKey) : Option Nat :=
+  (t.find? (fun e => e.1 == (objOf c, k))).map (·.2)
+
+theorem wdRead_write_same (objOf : Call → Obj) (t : WithData) (c : Call) (k : WdKey) (v : Nat) :
+    wdRead objOf (wdWrite objOf t c k v) c k = some v := by
+  simp [wdRead, wdWrite]
+
+/-- **partial** (what holds): a write for another call, or under another key, leaves a read untouched — provided the two calls'
+    results do not share a data object (or the keys differ) -/
+theorem wdRead_write_other_partial (objOf : Call → Obj) (t : WithData) (c c' : Call) (k k' : WdKey) (v : Nat)
+    (h : objOf c ≠ objOf c' ∨ k ≠ k') :
+    wdRead objOf (wdWrite objOf t c' k' v) c k = wdRead objOf t c k := by
+  have hne : ((objOf c', k') == (objOf c, k)) = false := by
+    rcases h with h | h
+    · simp [Ne.symm h]
+    · simp [Ne.symm h]
+  simp only [wdRead, wdWrite, List.find?_cons, hne]
+  congr 1
+  induction t with
+  | nil => rfl
+  | cons e t ih =>
+    simp only [List.filter_cons]
+    by_cases he : e.1 == (objOf c', k')
+    · have : (e.1 == (objOf c, k)) = false := by
+        have h1 : e.1 = (objOf c', k') := by simpa using he
+        rw [h1]; exact hne
+      simp [he, this, ih]
+    · simp [he, List.find?_cons, ih]
+
+/-- **K6** (the full statement — per call, last value written — is false): two calls whose results share a data object share
+    the metadata stored with it -/
+example : wdRead (fun _ => 7) (wdWrite (fun _ => 7) (wdWrite (fun _ => 7) [] 1 0 100) 2 0 200) 1 0 = some 200 := by decide
+
 end Memento.Store
